@@ -668,6 +668,7 @@ func init() {
 			stats["virtuals"] += p.nvirt
 		}
 		if len(progs) == 0 {
+			// nothing survived compilation: the check's floor on `programs` reports it
 			return writeJSON(*f.stats, stats)
 		}
 		file, err := ctx.Result()
@@ -734,15 +735,18 @@ func init() {
 			if fs[1] == "SAME" {
 				o.emit(fmt.Sprintf("accept-exec %s same %s", names[i], hexs(progs[i].describe())), "ok")
 				stats["same"]++
+				stats["judged"]++
 			} else {
 				o.emit(fmt.Sprintf("accept-exec %s diff:%s %s", names[i], strings.Join(fs[2:], "_"), hexs(progs[i].describe())), "ok")
 				stats["diff"]++
+				stats["judged"]++
 			}
 		}
 		for i := range progs {
 			if !seen[i] {
 				o.emit(fmt.Sprintf("accept-exec %s crashed:%v %s", names[i], rerr != nil, hexs(progs[i].describe())), "ok")
 				stats["no_result"]++
+				stats["judged"]++
 			}
 		}
 		_ = ir.NewFile
